@@ -98,6 +98,9 @@ char* FastHexToBuffer(int i, char* buffer);
 // anyway, so normally this just returns field->name().
 std::string FieldName(const google::protobuf::FieldDescriptor* field);
 
+// Appends an underscore to a (lower-case) name that is a C or C++ keyword.
+std::string EscapeKeyword(const std::string& name);
+
 // Get macro string for deprecated field
 std::string FieldDeprecated(const google::protobuf::FieldDescriptor* field);
 
